@@ -33,7 +33,7 @@ func init() {
 		Assumptions: []string{"values are dyadic rationals so that sums are exact and comparison tolerance 1e-9 only absorbs division", "NaN==NaN for LN/LOG of non-positive values", "periods older than truncateBefore are don't-care in Sequence.Merge"},
 		Cases: func(tier string) int {
 			if tier == "quick" {
-				return 16
+				return 48
 			}
 			return 160
 		},
